@@ -191,7 +191,12 @@ pub struct Wire {
     /// succeeds; the receiving side sees only flushed bytes (an OS-buffered port)
     pub hold_until_flush: bool,
     pub flushed_len: usize,
-    /// a receiver poll is in progress (set by the harness around the call)
+    /// nothing new arrives for the moment: every read at a frame boundary is answered "no
+    /// data yet" while this is set (the harness sets it around a single call)
+    pub freeze: bool,
+    /// a call into the link object that receives from this wire is in progress - a poll, a
+    /// tick, a send, an exchange (set by the harness around the call; constructing the object
+    /// is not such a call)
     pub in_poll: bool,
     /// bytes discarded by `clear(Input)` calls made during polls
     pub cleared_units: u64,
@@ -240,6 +245,7 @@ impl Wire {
             line_low_pct: 0,
             hold_until_flush: false,
             flushed_len: 0,
+            freeze: false,
             in_poll: false,
             cleared_units: 0,
             tx: TxPolicy::benign(),
@@ -396,6 +402,9 @@ impl Dev {
                 });
                 std::panic::panic_any(BlockedSentinel);
             }
+            return Arrival::NotYet;
+        }
+        if at_b && self.rx.borrow().freeze {
             return Arrival::NotYet;
         }
         if drain {
@@ -1073,7 +1082,8 @@ impl serialport::SerialPort for Dev {
     }
     /// `clear(Input)` discards what sits unread in the driver's receive buffer. Called while
     /// the receiver object is being constructed it discards nothing that matters (nothing has
-    /// arrived for a receiver that does not exist yet). Called during a poll it is a schedule
+    /// arrived for a receiver that does not exist yet). Called during a poll, tick, send or
+    /// exchange it is a schedule
     /// question how much of the traffic in flight had already reached the driver buffer: the
     /// tape decides between "nothing yet" and "everything in flight" - the latter is the
     /// adversarial but legal case in which the following packets were already buffered.
@@ -1093,7 +1103,7 @@ impl serialport::SerialPort for Dev {
             w.cleared_units += avail as u64;
             drop(w);
             self.sim.event(EV_RX, 15, avail as u64, || {
-                format!("{}.serial.clear(Input) during a poll: {} unread bytes that had already arrived are discarded", self.name, avail)
+                format!("{}.serial.clear(Input) during a call: {} unread bytes that had already arrived are discarded", self.name, avail)
             });
             self.sim.count("serial_input_cleared_during_poll");
         } else {
